@@ -279,8 +279,9 @@ that names independent parameters only — `setParameterValue` of an independent
 whatever the shape of the forest; so along a history of such updates every parameter equals the
 parameter it follows *through a chain of any length* (`synced_chain`).  What breaks sync is
 writing an aliased parameter by name and aliasing two parameters that hold different values
-(`chain_needs_sync_witness`); `setAllParametersValues` writes every parameter by name and is
-covered by `alias_tracks_direct` / `alias_tracks_chain` only. -/
+(`chain_needs_sync_witness`); `setAllParametersValues` writes every parameter by name: it keeps the
+links in sync exactly when its source is consistent with them (`alias_tracks_set_all`, and histories
+of all four routes: `updates_history_keeps_sync`, in `Props/C03Sound.lean`). -/
 
 /-- **alias_tracks, every bulk route, chains of any length** -/
 theorem alias_tracks_independent_updates {w : World} (h : Inv w) {k : Nat} {o : Obj} (ho : w.objs k = some o)
